@@ -48,7 +48,11 @@ let () =
            Printf.printf "OUT AR %s c=%s k=%s parts=%s chunks=%s\n" id (hx c) (dec_of_n r.ao_nchunks)
              (String.concat "," (List.map (fun (b, e) -> dec_of_n b ^ "-" ^ dec_of_n e) r.ao_parts))
              (String.concat "," (List.map (fun (i, (b, e)) -> dec_of_n i ^ ":" ^ hx b ^ ":" ^ hx e) r.ao_chunks)))
-      | ["IN"; "LK"; id; w; nn; bits; loc; spec; sched] ->
+      | ["IN"; ("LK" | "TR" as kind); id; w; nn; bits; loc; spec; sched] ->
+        (* LK: schedule chosen by the lock-step controller (harness/c11_lock.cpp);
+           TR: schedule = the logged order of the atomic accesses of the real set_value / task_functions on a
+               real pool (harness/c11_trace.cpp); "sites" = for every logged event the site at which the model
+               has that thread parked (the event is enabled iff they agree) *)
         let wn = int_of_string w in
         let cf = { cW = nat_of_int wn; cn = n_of_dec nn; cbits = n_of_dec bits; clocal = nat_of_int (int_of_string loc);
                    cthrows = throws_of_spec spec; cvals = n_of_int 7 } in
@@ -56,15 +60,18 @@ let () =
         let (sites, (g, _)) = lock_trace cf sl (binit cf) [] in
         let qs = List.init wn (fun q -> let l = drain (g.queues (nat_of_int q)).cur [] in
                                 if l = [] then "e" else String.concat "." l) in
-        Printf.printf "OUT LK %s sites=%s calls=%s exits=%s thrown=%s sigs=%s fin=%s rem=%s q=%s\n" id
+        Printf.printf "OUT %s %s sites=%s calls=%s exits=%s thrown=%s sigs=%s fin=%s" kind id
           (list_str (fun s -> string_of_int (int_of_nat s)) sites)
           (list_str (fun (i, _) -> dec_of_n i) (List.rev g.calls))
           (list_str dec_of_n (List.rev g.exits))
           (list_str dec_of_n (List.rev g.thrown))
           (if g.sigs = [] then "-" else String.concat "|" (List.map sig_str (List.rev g.sigs)))
-          (list_str (fun x -> string_of_int (int_of_nat x)) (List.rev g.fin))
-          (dec_of_n g.remaining)
-          (String.concat "," qs)
+          (list_str (fun x -> string_of_int (int_of_nat x)) (List.rev g.fin));
+        if kind = "LK" then Printf.printf " rem=%s q=%s\n" (dec_of_n g.remaining) (String.concat "," qs)
+        else
+          (* the real operation state is gone when the harness prints: the counter is compared with
+             W minus the number of logged decrements; queue rests (possible after a throw) are not observable *)
+          Printf.printf " rem=%s\n" (dec_of_n g.remaining)
       | ["IN"; "E2E"; id; _ty; bits; w; nhex; spec; obs] ->
         let bitsn = n_of_dec bits and wn = n_of_dec w and nn = n_of_hex nhex in
         if nn = N0 then Printf.printf "OUT E2E %s c=- k=- parts=- chunks=- kind=V\n" id
